@@ -78,3 +78,7 @@ def probes(case, layers, view, img):
     if -1 in m:
         p["vdi.unallocated_block"] = 1
     return p
+
+
+def req_meta_bytes(cfg, img, off, ln):
+    return 0
